@@ -394,6 +394,25 @@ def main():
         w("def INFO_%s : TypeInfo := { %s }" % (tag, ", ".join(
             ["%s := %d" % (k, d[k]) for k in lens] + ["%s := %s" % (k, "true" if d[k] else "false") for k in flags])))
     w("")
+    # ---- serialize.rs: the six fixed pictures of the human-readable form and the stack buffer they are rendered into
+    ser = read("serialize.rs")
+    tags = {"DATE": "D", "TIMESTAMP": "TS", "TIME": "T", "INTERVAL_YM": "YM", "INTERVAL_DT": "DT", "ORACLE_DATE": "OD"}
+    pics = {}
+    for m in re.finditer(r'static\s+(\w+)_FORMATTER\s*:\s*Lazy\s*<\s*Formatter\s*>\s*=\s*Lazy::new\(\s*\|\|\s*Formatter::try_new\(\s*"((?:[^"\\\\]|\\\\.)*)"\s*\)\s*\.unwrap\(\)\s*\)\s*;', ser):
+        if m.group(1) in tags:
+            if "\\" in m.group(2):
+                raise ExtractError("escape sequence in the picture of %s_FORMATTER" % m.group(1))
+            pics[tags[m.group(1)]] = m.group(2)
+    for name, tag in tags.items():
+        if tag not in pics:
+            raise ExtractError("serialize.rs: static %s_FORMATTER not found in the expected form" % name)
+        w("/-- `%s_FORMATTER`: \"%s\" -/" % (name, pics[tag]))
+        w("def SERDE_PICTURE_%s : List Nat := %s" % (tag, lean_bytes(pics[tag])))
+    m = re.search(r"type\s+StrBuf\s*=\s*StackStr\s*<\s*(\d+)\s*>\s*;", ser)
+    if not m:
+        raise ExtractError("serialize.rs: `type StrBuf = StackStr<N>` not found")
+    w("def SERDE_BUF_CAP : Nat := %d" % int(m.group(1)))
+    w("")
     w("end SqlDt.Gen")
     text = "\n".join(out) + "\n"
 
